@@ -299,6 +299,8 @@ class UnscentedKalmanFilter(KalmanFilter):
         # STEP 0: Re-sample the sigma points around predicted (sampled) state estimate
         if self._resample:
             self.sigma_points = self.generateSigmaPoints(self.pred_x, self.pred_p)
+            # The state residuals must belong to the redrawn set (its first column is the predicted mean)
+            self.sigma_x_res = self.sigma_points - self.sigma_points[:, :1]
 
         # STEP 1: Calculate the Measurement Matrix (H)
         self.calculateMeasurementMatrix(observations)
